@@ -656,6 +656,9 @@ class Progress(JupyterMixin, RenderHook):
             if self._started:
                 return
             self._started = True
+            # nothing of this display is on the screen yet: forget the shape a previous
+            # run (or a render that was still in flight when it stopped) left behind
+            self._live_render._shape = None
             self.console.show_cursor(False)
             self._enable_redirect_io()
             self.console.push_render_hook(self)
@@ -694,8 +697,6 @@ class Progress(JupyterMixin, RenderHook):
             refresh_thread.join()
         if self.transient:
             self.console.control(self._live_render.restore_cursor())
-        # the last frame is now permanent output (or erased): a later start() begins afresh
-        self._live_render._shape = None
         if self.ipy_widget is not None and self.transient:  # pragma: no cover
             self.ipy_widget.clear_output()
             self.ipy_widget.close()
